@@ -381,6 +381,10 @@ pub fn run(args: &Args, mon: &mut Mon) -> (String, Vec<&'static str>) {
         quiet.push(("truncated-scmp", vec![128], true));
         quiet.push(("truncated-scmp", vec![128, 0, 0], true));
         quiet.push(("truncated-echo", scmp_bytes(128, 0, &rest[..r.usize(4)]), true));
+        for (typ, info_len) in [(1u8, 4usize), (2, 4), (4, 4), (5, 16), (6, 24)] {
+            let n = r.usize(info_len);
+            quiet.push(("truncated-error", scmp_bytes(typ, 0, &r.bytes(n)), true));
+        }
         for (label, scmp, good_ck) in quiet {
             let qp = random_path(&mut r, true);
             let (_, bytes) = packet(&mut r, qp, 202, scmp.clone(), good_ck);
@@ -406,7 +410,8 @@ pub fn run(args: &Args, mon: &mut Mon) -> (String, Vec<&'static str>) {
                 Ok(None) => {}
             }
             for action in [LocalAsRoutingAction::IngressSCMPHandleRequest { interface_id: 1 }, LocalAsRoutingAction::ForwardLocal, LocalAsRoutingAction::SendSCMPErrorResponse(error_message(&mut r, 2, bytes.clone()).0)] {
-                let is_err_in = scmp.first().map(|t| *t < 128).unwrap_or(false) && scmp.len() >= 4;
+                let malformed = label.starts_with("truncated");
+                let is_err_in = (scmp.first().map(|t| *t < 128).unwrap_or(false) && scmp.len() >= 4) || malformed;
                 let label2 = match action {
                     LocalAsRoutingAction::IngressSCMPHandleRequest { .. } => "scmp-request-handling",
                     LocalAsRoutingAction::ForwardLocal => "forward-local",
